@@ -49,7 +49,7 @@ type replayWitness struct {
 
 func genCases(r *common.Run) []Case {
 	rng := r.Rand("cases")
-	n := r.Pick(30, 420)
+	n := r.Pick(42, 800)
 	transports := []string{"local", "recv", "rpc"}
 	workloads := []string{"incr", "append", "shcounter", "reg"}
 	var cs []Case
@@ -58,6 +58,18 @@ func genCases(r *common.Run) []Case {
 		for _, nodes := range []int{3, 6} {
 			cs = append(cs, Case{N: nodes, Writers: nodes, Transport: t, Workload: "shcounter"})
 		}
+	}
+	// small clusters in which a proposer's Abort is often overtaken by its own next PreCommit while commits
+	// travel slowly: the schedule family in which a stale Abort can free a vote that already counted
+	for i, k := 0, r.Pick(3, 45); i < k; i++ {
+		cs = append(cs, Case{N: 3, Writers: 3, Transport: transports[i%3], Workload: []string{"append", "incr"}[(i/3)%2], Ops: 8, Yield: 0.3,
+			Faults: Faults{HoldAbort: 0.8, Drop: 0.3, Delay: 0.1, MaxDelayUs: 1500}})
+	}
+	// small clusters in which a Commit is often overtaken by its proposer's next PreCommit / Abort and some PreCommits
+	// are lost: replicas that lag one version behind keep seeing messages for the next one
+	for i, k := 0, r.Pick(3, 45); i < k; i++ {
+		cs = append(cs, Case{N: 3 + (i/3)%2, Writers: 3, Transport: transports[i%3], Workload: []string{"incr", "append"}[(i/3)%2], Ops: 8, Yield: 0.3,
+			Faults: Faults{HoldCommit: 0.7, Drop: 0.3, Delay: 0.2, Reorder: 0.1, MaxDelayUs: 2000}})
 	}
 	for i := len(cs); i < n; i++ {
 		c := Case{Transport: transports[i%3], Workload: workloads[(i/3)%4]}
@@ -81,7 +93,9 @@ func genCases(r *common.Run) []Case {
 		if rng.Intn(4) != 0 {
 			c.Yield = 0.3 + 0.5*rng.Float64()
 		}
-		switch rng.Intn(5) {
+		switch rng.Intn(6) {
+		case 5: // a proposer's Abort is overtaken by its own next PreCommit; some PreCommits are lost
+			c.Faults = Faults{HoldAbort: 0.7, Drop: 0.25, Delay: 0.1, MaxDelayUs: 800, ErrBudget: 0}
 		case 0: // none
 		case 1: // delay + reorder only (no errors: quiescence oracles stay applicable)
 			c.Faults = Faults{Delay: 0.3, Reorder: 0.2, MaxDelayUs: 1500}
@@ -103,9 +117,7 @@ func genCases(r *common.Run) []Case {
 		if c.Workload == "shcounter" {
 			ops = 2
 		}
-		// measured on the unmutated tree over in-process handles: ≤ 12 PreCommit calls per committed section
-		// and writer in the worst run; the bound leaves a factor > 10
-		c.MaxPreCommits = 150 * c.Writers * ops * c.N
+		c.MaxProposals = 40 * c.Writers * ops * c.N
 		c.DeadlineS = r.Pick(40, 60)
 	}
 	return cs
@@ -126,7 +138,7 @@ type raceReport struct {
 	Report string `json:"report"`
 }
 
-var raceFrame = regexp.MustCompile(`(?m)^\s+(github\.com/DistCompiler/pgo/[^\s(]+)\(`)
+var raceFrame = regexp.MustCompile(`(?m)^\s+github\.com/DistCompiler/pgo/distsys/(\S+)\(\)\s*$`)
 
 func parseRaces(dir string) []raceReport {
 	var out []raceReport
@@ -142,7 +154,7 @@ func parseRaces(dir string) []raceReport {
 			sig := ""
 			for _, p := range parts {
 				if m := raceFrame.FindStringSubmatch(p); m != nil {
-					sig += strings.TrimPrefix(m[1], "github.com/DistCompiler/pgo/distsys/") + " | "
+					sig += m[1] + " | "
 				}
 			}
 			if len(blk) > 3000 {
@@ -155,7 +167,6 @@ func parseRaces(dir string) []raceReport {
 }
 
 var panicLine = regexp.MustCompile(`(?m)^(panic: .*|fatal error: .*)$`)
-var digits = regexp.MustCompile(`[0-9]+`)
 
 func runCase(c Case, scratch string) outcome {
 	o := outcome{c: c}
@@ -179,16 +190,12 @@ func runCase(c Case, scratch string) outcome {
 	}
 	if !o.complete {
 		if m := panicLine.FindString(o.child.Output); m != "" && !o.child.TimedOut {
-			slug := digits.ReplaceAllString(m, "N")
-			slug = regexp.MustCompile(`[^A-Za-z]+`).ReplaceAllString(slug, "-")
-			if len(slug) > 90 {
-				slug = slug[:90]
-			}
 			out := o.child.Output
 			if len(out) > 6000 {
 				out = out[:6000]
 			}
-			o.fs = append(o.fs, Finding{"C11:crash:" + strings.Trim(slug, "-"), "the process running the replicas died: " + m, map[string]any{"output_head": out}})
+			o.fs = append(o.fs, Finding{"C11:crash:" + slug(strings.TrimPrefix(m, "panic: ")), "the process running the replicas died: " + m, map[string]any{"output_head": out}})
+			o.st.Inconclusive = ""
 		} else if o.st.Inconclusive == "" {
 			o.st.Inconclusive = fmt.Sprintf("child did not finish its log (exit %d, watchdog %v)", o.child.ExitCode, o.child.TimedOut)
 		}
@@ -210,12 +217,35 @@ func main() {
 	defer os.RemoveAll(scratch)
 
 	cases := genCases(r)
+	if force := os.Getenv("VERIF_C11_FORCE"); force != "" { // development aid: JSON overlay applied to every generated case
+		for i := range cases {
+			if err := json.Unmarshal([]byte(force), &cases[i]); err != nil {
+				fmt.Println("bad VERIF_C11_FORCE:", err)
+				os.Exit(3)
+			}
+		}
+		r.Note("VERIF_C11_FORCE=%s", force)
+	}
+	if flt := os.Getenv("VERIF_C11_FILTER"); flt != "" { // development aid: only cases whose signature contains every given word
+		var keep []Case
+		for _, c := range cases {
+			ok := true
+			for _, w := range strings.Fields(flt) {
+				ok = ok && strings.Contains(c.sig(), w)
+			}
+			if ok {
+				keep = append(keep, c)
+			}
+		}
+		cases = keep
+		r.Note("VERIF_C11_FILTER=%q: %d cases kept", flt, len(cases))
+	}
 	// race batches: light instrumentation, race-detector build
 	if os.Getenv("VERIF_RACE_BIN") != "" {
 		nr := r.Pick(3, 12)
 		rrng := r.Rand("race")
 		for i := 0; i < nr; i++ {
-			c := Case{ID: len(cases), Seed: r.Seed*977 + int64(i), Race: true, Procs: 4, DeadlineS: 30}
+			c := Case{ID: len(cases), Seed: r.Seed*977 + int64(i), Race: true, Procs: 4, DeadlineS: 25}
 			c.Transport = []string{"local", "rpc", "recv"}[i%3]
 			c.N = 3
 			if i >= 3 {
@@ -227,7 +257,7 @@ func main() {
 			} else {
 				c.Workload = "shcounter"
 			}
-			c.MaxPreCommits = 150 * c.Writers * 4 * c.N
+			c.MaxProposals = 0 // no wrapper in race batches: only the deadline
 			cases = append(cases, c)
 		}
 	} else {
@@ -259,9 +289,12 @@ func main() {
 	byWorkload := map[string]int{}
 	winnerSigs := map[string]bool{}
 	linOK, linOps := 0, 0
-	var installs, wins, sections, released, rejected, ignored, evaluations int
+	var installs, wins, sections, released, rejected, evaluations int
 	raceSigs := map[string]int{}
 	raceCases := 0
+	maxPropRatio, maxPropCase := 0.0, ""
+	staleAbortReleases, lateAccepts, otherVerReleases := map[string]int{}, map[string]int{}, map[string]int{}
+	livelocks := 0
 	for _, o := range outs {
 		evaluations++
 		c := o.c
@@ -296,12 +329,24 @@ func main() {
 		for k, v := range o.st.Faults {
 			totFaults[k] += v
 		}
+		if o.st.Sections > 0 && o.st.Reason == "done" {
+			// proposals broadcast per committed section, normalised by writers*replicas (calibrates the attempt bound)
+			if ratio := float64(o.st.Proposals) / float64(o.st.Sections*c.Writers*c.N); ratio > maxPropRatio {
+				maxPropRatio, maxPropCase = ratio, c.sig()
+			}
+		}
+		staleAbortReleases[c.Transport] += o.st.StaleAbortReleases
+		lateAccepts[c.Transport] += o.st.LateAccepts
+		otherVerReleases[c.Transport] += o.st.OtherVersionAbortReleases
+		if o.st.Livelock {
+			livelocks++
+			r.Note("livelock fixpoint in case %d [%s], causes %v", c.ID, c.sig(), o.st.LivelockCauses)
+		}
 		installs += o.st.Installs
 		wins += o.st.Wins
 		sections += o.st.Sections
 		released += o.st.AbortsReleased
 		rejected += o.st.Rejected
-		ignored += o.st.Ignored
 		if o.st.LinResult == "Ok" {
 			linOK++
 			linOps += o.st.LinOps
@@ -317,7 +362,7 @@ func main() {
 		}
 		samples.Add(map[string]any{"case": c, "stats": o.st, "findings": len(o.fs), "child_wall_s": o.child.Wall.Seconds()})
 	}
-	var raceList []any
+	raceList := []any{}
 	var rs []string
 	for s := range raceSigs {
 		rs = append(rs, s)
@@ -341,7 +386,6 @@ func main() {
 			"sections_committed":          sections,
 			"aborts_that_released":        released,
 			"precommits_rejected":         rejected,
-			"stale_requests_ignored":      ignored,
 			"faults_injected":             totFaults,
 			"end_reasons":                 reasons,
 			"cases_by_transport":          byTransport,
@@ -349,9 +393,15 @@ func main() {
 			"distinct_winner_sequences":   len(winnerSigs),
 			"linearizable_histories":      linOK,
 			"linearizable_history_ops":    linOps,
-			"race_batches":                raceCases,
-			"races_observed":              raceList,
-			"races_policy":                "evidence only (DESIGN E7): a race report never decides C11",
+			"livelock_fixpoints_observed": livelocks,
+			"obs_precommit_released_by_older_abort_of_same_proposer": staleAbortReleases,
+			"obs_precommit_accepted_after_newer_abort_was_processed": lateAccepts,
+			"obs_precommit_released_by_abort_for_another_version":    otherVerReleases,
+			"max_proposals_per_section_writer_replica":               maxPropRatio,
+			"max_proposals_case": maxPropCase,
+			"race_batches":       raceCases,
+			"races_observed":     raceList,
+			"races_policy":       "evidence only (DESIGN E7): a race report never decides C11",
 		},
 	}, []string{
 		"replicas of one cluster live in one process (RPC transport still goes through TCP on 127.0.0.1 and gob)",
